@@ -160,9 +160,16 @@ func (m MethodScope) populateImports(t types.Type, imports map[string]*Package) 
 func (m MethodScope) resolveImportVarConflicts(imports map[string]*Package) {
 	// Ensure that all the newly added imports do not conflict with any of the
 	// existing vars.
-	for _, imprt := range imports {
-		if v, ok := m.searchVar(imprt.Qualifier()); ok {
-			v.Name += "MoqParam"
+	// Renaming may produce a name that equals another of the new qualifiers
+	// (foo -> fooMoqParam with a package fooMoqParam), so repeat until nothing
+	// changes: the result then does not depend on the map iteration order.
+	for changed := true; changed; {
+		changed = false
+		for _, imprt := range imports {
+			if v, ok := m.searchVar(imprt.Qualifier()); ok {
+				v.Name += "MoqParam"
+				changed = true
+			}
 		}
 	}
 }
